@@ -98,6 +98,16 @@ func pipelineWorld(r *R) {
 	}
 	cbTotal := res.b.cbCalls
 	nextTotal := res.nextCalls
+	// user callbacks are called exactly as often as the documented function needs: the lazy model
+	// calls its predicates and mapping functions once per item that reaches them, and read to the
+	// end, fault-free, the library must have made the same number of calls
+	if r.Focus == "C07" && !prog.has("mapstream") && !prog.has("batch") && !prog.has("merge") {
+		r.Probe("callback-count-checked")
+		if cbTotal != env.cbCalls {
+			r.Violate("C07", "callback-count/"+prog.op, "read to the end without faults, the library called the user's predicates / mapping functions %d times; the documented function needs %d calls (program %v)", cbTotal, env.cbCalls, prog)
+			return
+		}
+	}
 
 	if r.Focus == "C07" {
 		// reducers on fresh instantiations
@@ -1124,6 +1134,26 @@ func pipelineXslices(r *R) {
 	}
 	if !cmp("Chunk", flat(xslices.Chunk(append([]int(nil), xs...), k), sepChunk), mdl(&pnode{op: "chunk", n: k, kids: []*pnode{leaf}})) {
 		return
+	}
+	{
+		// the largest legal chunk size: everything in one chunk, like the iterator and stream versions
+		var got [][]int
+		panicked := false
+		func() {
+			defer func() {
+				if p := recover(); p != nil {
+					panicked = true
+					r.Violate("C07", "xslices/Chunk/panic/chunk-size-maxint", "xslices.Chunk(%v, math.MaxInt) panicked: %v (iterator.Chunk and stream.Chunk yield one chunk)", xs, p)
+				}
+			}()
+			got = xslices.Chunk(append([]int(nil), xs...), hugeChunk)
+		}()
+		if panicked {
+			return
+		}
+		if !cmp("Chunk/maxint", flat(got, sepChunk), mdl(&pnode{op: "chunk", n: hugeChunk, kids: []*pnode{leaf}})) {
+			return
+		}
 	}
 	if !cmp("Compact", xslices.Compact(append([]int(nil), xs...)), mdl(&pnode{op: "compact", kids: []*pnode{leaf}})) {
 		return
